@@ -13,7 +13,7 @@ variable {kd : Kind} {res : Key → Res}
 
 def pcRank : Pc → Nat
   | .idle => 0
-  | .xRet => 1 | .xRel => 2 | .xEvict => 3 | .xLen => 4 | .xTouch => 8
+  | .xRelX => 1 | .xRet => 1 | .xRel => 2 | .xEvict => 3 | .xLen => 4 | .xTouch => 8
   | .lSdWrite => 9 | .lSdRead => 10 | .lInit => 11 | .lAlloc => 12 | .lTest => 13 | .lGet => 14 | .lAcq => 15
   | .gRetE => 1 | .gRelE => 2 | .gStore => 9 | .gCheck => 10 | .gInit => 11 | .gAlloc => 12 | .gTest => 13
   | .gGet => 14 | .gAcq => 15
@@ -54,7 +54,7 @@ theorem tstep_decreases {t : Tid} {g g' : Glob} {th th' : Thread} (h : tstep kd 
       have := touch_len g.strong th.key ‹Id›
       simp only [thCost, hp, pcRank]; omega
     · cases h
-  all_goals (try (split at h)) <;> (try (split at h)) <;>
+  all_goals (try (split at h)) <;> (try (split at h)) <;> (try (split at h)) <;> (try (split at h)) <;>
     (try simp only [Option.some.injEq, Prod.mk.injEq, reduceCtorEq] at h) <;>
     (try (obtain ⟨rfl, rfl⟩ := h)) <;> simp only [thCost, hp, pcRank] <;> (try split) <;>
     (try simp_all only [List.length_cons, List.length_nil]) <;> omega
